@@ -37,7 +37,7 @@ PROPS = {
     "C10": dict(streams=[orc("dist", "dist", 600, 12000)], rule=RULE + "; random assignment of the series to 1..4 remote engines incl. empty partitions", trusted_base=COMMON_TB),
     "C11": dict(streams=[orc("procs", "mixed", 150, 2500), orc("procs", "selector", 100, 1500), orc("procs", "twins", 250, 3000), orc("procs", "agg", 300, 4000), orc("procs", "kagg", 200, 3000)], rule=RULE + "; each case under GOMAXPROCS 1,2,3,4,6,8,12,16, permuted storage order, added unrelated series, yields in storage callbacks", trusted_base=COMMON_TB),
     "C12": dict(streams=[orc("concurrent", "concurrent", 60, 600, workers=4), orc("concurrent", "twins", 30, 300, workers=4)], race=True, rule=RULE + "; up to 32 concurrent executions of 2-6 queries on one engine and one storage under the race detector", trusted_base=COMMON_TB),
-    "C13": dict(streams=[orc("panic", "mixed", 40, 500), orc("panic", "extreme", 60, 800), diff("extreme", 400, 6000), diff("aggparam", 400, 6000)], rule=RULE + "; a panic (runtime error / string value) injected at storage events, each attempt in a child process", trusted_base=COMMON_TB),
+    "C13": dict(streams=[orc("panic", "mixed", 40, 500), orc("panic", "extreme", 60, 800), orc("lifecycle", "mixed", 150, 2000), diff("extreme", 400, 6000), diff("aggparam", 400, 6000)], rule=RULE + "; a panic (runtime error / string value) injected at storage events, each attempt in a child process", trusted_base=COMMON_TB),
     "C14": dict(streams=[orc("cancel", "mixed", 100, 1500), orc("cancel", "binary", 40, 600)], rule=RULE + "; cancellation of the context, Cancel() from another goroutine and a blocking storage at storage events", trusted_base=COMMON_TB),
     "C15": dict(streams=[orc("faults", "mixed", 200, 3000)], rule=RULE + "; an error injected at error-capable storage events (Querier, Select, SeriesSet.Next/Err, Iterator Seek/Next/Err)", trusted_base=COMMON_TB),
     "C16": dict(streams=[orc("hints", "mixed", 500, 8000), orc("hints", "twins", 400, 6000), orc("hints", "hist", 300, 4000), orc("hints", "func", 300, 4000)], rule=RULE, trusted_base=COMMON_TB),
